@@ -119,7 +119,7 @@ def generate(ctx, batch, idx):
             ops.append(["headflags", {"k": 0, "seed": 0}])
         if r.random() < 0.25:
             # the source as another conforming writer stores it (oracles.container.foreign_variant)
-            h["foreign"] = {"longloca": r.random() < 0.6, "bit11": r.random() < 0.6, "order_seed": r.choice([None, r.randrange(1 << 16)]), "loosebbox": r.choice([None, r.randrange(1 << 16)])}
+            h["foreign"] = {"longloca": r.random() < 0.6, "bit11": r.random() < 0.6, "order_seed": r.choice([None, r.randrange(1 << 16)]), "loosebbox": r.choice([None, r.randrange(1 << 16)]), "compflags": r.choice([None, r.randrange(1 << 16)])}
             h["original"] = False
             if h["foreign"]["loosebbox"] is not None and r.random() < 0.5:
                 # roomy boxes only survive to the writer when they are not recalculated
@@ -628,7 +628,7 @@ def simplify(ctx, h):
         c = copy.deepcopy(h)
         del c["foreign"]
         yield c
-        for k, v in (("longloca", False), ("bit11", False), ("order_seed", None), ("loosebbox", None)):
+        for k, v in (("longloca", False), ("bit11", False), ("order_seed", None), ("loosebbox", None), ("compflags", None)):
             if h["foreign"].get(k) != v:
                 c = copy.deepcopy(h)
                 c["foreign"][k] = v
